@@ -10,7 +10,7 @@
    function g with parameters A and body `body; return Rt`; shared = defined at module level beside
    module-level host code. *)
 From Coq Require Import List NArith ZArith Bool.
-From RopeVerif.C03 Require Import Flow Collector Dataflow LiveProofs OutlineProofs CollectorProofs Witnesses Sufficient SufficientProofs.
+From RopeVerif.C03 Require Import Flow Collector Dataflow Current LiveProofs OutlineProofs CollectorProofs Witnesses Sufficient SufficientProofs.
 Import ListNotations.
 
 (* The outlining lemma, independent of rope. outline_ok (coq/C03/Dataflow.v) is the conjunction of: the
@@ -50,7 +50,7 @@ Print Assumptions C03_liveness_sound.
 (* The model of rope's extract (collector with the code's flag discipline or any repaired one): whenever the
    args/returns it computes satisfy the outlining hypotheses for this host and region, the program it produces
    behaves like the original. The harness evaluates this boolean for every generated case ("in the theorem's
-   domain") with sw = as_is, the discipline of the code. *)
+   domain") with sw = current (coq/C03/Current.v), the discipline of the code including the four committed fixes. *)
 Theorem C03_extract_preserves :
   forall sw glob params lc p',
     extract sw glob params lc = Some p' ->
@@ -60,9 +60,9 @@ Proof. exact extract_preserves. Qed.
 Print Assumptions C03_extract_preserves.
 
 Example C03_extract_preserves_nonvacuous :
-  outline_ok ex_loop [va] (args_rope as_is false [va] ex_loop) (rets_rope as_is false [va] ex_loop) false = true
-  /\ args_rope as_is false [va] ex_loop = [vx; vy] /\ rets_rope as_is false [va] ex_loop = [vy; vx]
-  /\ outline_ok ex_tail [va; vb] (args_rope as_is false [va; vb] ex_tail) (rets_rope as_is false [va; vb] ex_tail) false = true
+  outline_ok ex_loop [va] (args_rope current false [va] ex_loop) (rets_rope current false [va] ex_loop) false = true
+  /\ args_rope current false [va] ex_loop = [vx; vy] /\ rets_rope current false [va] ex_loop = [vy; vx]
+  /\ outline_ok ex_tail [va; vb] (args_rope current false [va; vb] ex_tail) (rets_rope current false [va; vb] ex_tail) false = true
   /\ returns_last (region ex_tail) = true.
 Proof. vm_compute. repeat split; reflexivity. Qed.
 Print Assumptions C03_extract_preserves_nonvacuous.
@@ -87,29 +87,34 @@ Proof. vm_compute. repeat split; reflexivity. Qed.
 Print Assumptions C03_refusal_nonvacuous.
 
 (* C03_collector_sufficient at full strength would read
-       forall lc, accepted (region lc) = true -> outline_ok lc params (args_rope as_is ..) (rets_rope as_is ..) = true
-   and is false for the code as it is: see the computed counterexamples below. Proved variant: for the syntactic
-   class side_C03 (coq/C03/Sufficient.v) -- the region is a run of simple statements (assignment, augmented
-   assignment, print, pass, optionally a final return) at the top level of the function body; whatever precedes
-   it (any statements, loops and conditionals included) definitely assigns every name it may assign; whatever
-   follows it (any statements) assigns none of the names the region assigns; lines are in source order -- the
-   collector of the code as it is (visitor followed through the three phases before / inside / after the region)
-   computes args/returns that satisfy every hypothesis of the outlining lemma, and the region is accepted. *)
+       forall lc, accepted (region lc) = true -> outline_ok lc params (args_rope current ..) (rets_rope current ..) = true
+   and is still false for the current code (open defects: see the counterexamples for `current` below). Proved
+   variant, for the current discipline (fixes 25782e7, c0fa7ad, f6cf806, 99f0982 included), on the syntactic class
+   side_C03 (coq/C03/Sufficient.v): the region is a run of simple statements (assignment, augmented assignment,
+   print, pass, optionally a final return) at the top level of the function body; whatever precedes it (any
+   statements, loops and conditionals included) definitely assigns every name it may assign; whatever follows
+   it is ARBITRARY (before f6cf806 the class had to demand that the rest of the function assigns none of the
+   region's names: the repaired kill discipline -- only writes at the top level of the body kill -- is proved
+   to over-approximate liveness); lines are in source order. Then the collector (visitor followed through the
+   three phases before / inside / after the region) computes args/returns that satisfy every hypothesis of the
+   outlining lemma, and the region is accepted. Not widened further: regions containing compound statements
+   stay outside because of the open defect C03-maybe-written-read, regions inside loops because of
+   C03-loop-carried / C03-loop-prewritten. *)
 Theorem C03_collector_sufficient_partial :
   forall params pre R post,
     side_C03 params pre R post = true ->
     let lc := LHere pre R post in
     accepted (region lc) = true
-    /\ outline_ok lc params (args_rope as_is false params lc) (rets_rope as_is false params lc) false = true.
+    /\ outline_ok lc params (args_rope current false params lc) (rets_rope current false params lc) false = true.
 Proof. exact collector_sufficient. Qed.
 Print Assumptions C03_collector_sufficient_partial.
 
-(* hence, on that class, extraction as the code performs it preserves the behaviour for every argument vector
-   and every fuel (C03_collector_sufficient_partial + C03_extract_preserves) *)
+(* hence, on that class, extraction as the current code performs it preserves the behaviour for every argument
+   vector and every fuel (C03_collector_sufficient_partial + C03_outline_sound) *)
 Theorem C03_extract_correct_partial :
   forall params pre R post,
     side_C03 params pre R post = true ->
-    exists p', extract as_is false params (LHere pre R post) = Some p'
+    exists p', extract current false params (LHere pre R post) = Some p'
                /\ forall n vec, run n params vec p' = run n params vec (pre ++ R ++ post).
 Proof.
   intros params pre R post H. destruct (collector_sufficient params pre R post H) as [ACC OK].
@@ -119,21 +124,36 @@ Qed.
 Print Assumptions C03_extract_correct_partial.
 
 (* the class is inhabited by a region that reads and updates two names, preceded by a loop and followed by a
-   conditional and a return *)
+   conditional that REASSIGNS one of them (allowed since f6cf806) and a return *)
 Example C03_collector_sufficient_nonvacuous :
   side_C03 [va] [SAssign 2 vx (EConst 0); SWhile 3 (EBin Lt (EVar vx) (EVar va)) [SAug 4 vx Add (EConst 1)];
                  SAssign 5 vy (EVar va)]
            [SAug 6 vy Add (EVar vx); SAssign 7 vz (EBin Mul (EVar vy) (EConst 2)); SPrint 8 (EVar vz)]
-           [SIf 9 (EVar vz) [SPrint 10 (EVar vy)] []; SReturn 11 (EBin Add (EVar vz) (EVar vx))] = true.
+           [SIf 9 (EVar vz) [SAssign 10 vy (EConst 0)] []; SReturn 11 (EBin Add (EVar vz) (EVar vy))] = true.
 Proof. vm_compute. reflexivity. Qed.
 Print Assumptions C03_collector_sufficient_nonvacuous.
 
-(* the computed counterexamples to the full-strength statement: each is a replay under findings/ that fails on
-   the real library (the harness checks on every run that the replay is this witness); for six of them the
-   corresponding repaired discipline satisfies the hypotheses on the same program. *)
+(* The four committed fixes: the current discipline satisfies the outlining hypotheses on the witnesses of the
+   four fixed defects (so by C03_extract_preserves they are now extracted correctly; their replays are corpus
+   cases that must pass), and one further switch each would do the same for the two repairable open defects. *)
+Theorem C03_fixed_defects_sound :
+  repaired current false [va; vb] w_nested = true
+  /\ repaired current false [va] w_branch = true
+  /\ repaired current false [va] w_loopdepth = true
+  /\ repaired current true [] w_module = true
+  /\ repaired (sw_or current (only false false false true false false)) false [va; vb] w_readmaybe = true
+  /\ repaired (sw_or current (only false false false false true false)) false [va] w_loopcarried = true.
+Proof. exact current_compute. Qed.
+Print Assumptions C03_fixed_defects_sound.
+
+(* Computed counterexamples. The first four are about the discipline of the code AS IT WAS FOUND (as_is); those
+   defects are FIXED in /repo and the lemmas stay as documentation (replays: corpus/C03/). The other five are
+   about the CURRENT code and are open findings (replays: findings/); the harness checks on every run that each
+   replay is the lemma's witness. *)
 
 (* nested `if` in the extracted `if`: leaving it resets `conditional`, x counts as written, is returned but
    not passed: the new function raises UnboundLocalError when the outer condition is false *)
+(* FIXED by 25782e7; statement about the as-found discipline as_is *)
 Theorem C03_nested_conditional_refuted :
   exists p', extract as_is false [va; vb] w_nested = Some p'
              /\ run 5 [va; vb] [0; 0]%Z p' <> run 5 [va; vb] [0; 0]%Z (orig w_nested).
@@ -142,6 +162,7 @@ Print Assumptions C03_nested_conditional_refuted.
 
 (* the write in the sibling else-branch enters postwritten and hides the later `return z`: z is not returned,
    the host silently returns 0 instead of 4 *)
+(* FIXED by f6cf806; statement about the as-found discipline as_is *)
 Theorem C03_postwritten_branch_refuted :
   exists p', extract as_is false [va] w_branch = Some p'
              /\ run 5 [va] [1]%Z p' <> run 5 [va] [1]%Z (orig w_branch).
@@ -151,13 +172,14 @@ Print Assumptions C03_postwritten_branch_refuted.
 (* a read inside a conditional is dropped when the name is in maybe_written, even if the conditional write
    belongs to an earlier statement: z is not passed *)
 Theorem C03_maybe_written_read_refuted :
-  exists p', extract as_is false [va; vb] w_readmaybe = Some p'
+  exists p', extract current false [va; vb] w_readmaybe = Some p'
              /\ run 5 [va; vb] [0; 1]%Z p' <> run 5 [va; vb] [0; 1]%Z (orig w_readmaybe).
 Proof. exact maybe_written_read_refuted. Qed.
 Print Assumptions C03_maybe_written_read_refuted.
 
 (* leaving a loop inside the region decrements loop_depth although entering it did not increment it: the
    loop-carried x is not returned, the host loops for ever *)
+(* FIXED by c0fa7ad; statement about the as-found discipline as_is *)
 Theorem C03_loop_depth_refuted :
   exists p', extract as_is false [va] w_loopdepth = Some p'
              /\ run 20 [va] [2]%Z p' <> run 20 [va] [2]%Z (orig w_loopdepth).
@@ -166,7 +188,7 @@ Print Assumptions C03_loop_depth_refuted.
 
 (* a name written in the region and read earlier in the enclosing loop body (not in the region) is not returned *)
 Theorem C03_loop_carried_refuted :
-  exists p', extract as_is false [va] w_loopcarried = Some p'
+  exists p', extract current false [va] w_loopcarried = Some p'
              /\ run 20 [va] [2]%Z p' <> run 20 [va] [2]%Z (orig w_loopcarried).
 Proof. exact loop_carried_refuted. Qed.
 Print Assumptions C03_loop_carried_refuted.
@@ -175,13 +197,14 @@ Print Assumptions C03_loop_carried_refuted.
    prewritten: it is not passed, the new function raises NameError from the second iteration on (passing it would raise
    in the first iteration: this region cannot be extracted by parameter passing at all and should be refused) *)
 Theorem C03_loop_prewritten_refuted :
-  exists p', extract as_is false [va] w_loopprew = Some p'
+  exists p', extract current false [va] w_loopprew = Some p'
              /\ run 20 [va] [2]%Z p' <> run 20 [va] [2]%Z (orig w_loopprew).
 Proof. exact loop_prewritten_refuted. Qed.
 Print Assumptions C03_loop_prewritten_refuted.
 
 (* module level: args = read & postread & written; a global that is read and rebound in the region but not
    read afterwards becomes an unbound local of the new function *)
+(* FIXED by 99f0982; statement about the as-found discipline as_is *)
 Theorem C03_module_args_refuted :
   exists p', extract as_is true [] w_module = Some p'
              /\ run 5 [] [] p' <> run 5 [] [] (orig w_module).
@@ -191,19 +214,19 @@ Print Assumptions C03_module_args_refuted.
 (* prewritten is a may-analysis: a name that is only conditionally bound before the region is passed, the call
    itself raises although the region would not have read it *)
 Theorem C03_arg_maybe_unbound_refuted :
-  exists p', extract as_is false [va] w_argunbound = Some p'
+  exists p', extract current false [va] w_argunbound = Some p'
              /\ run 5 [va] [0]%Z p' <> run 5 [va] [0]%Z (orig w_argunbound).
 Proof. exact arg_maybe_unbound_refuted. Qed.
 Print Assumptions C03_arg_maybe_unbound_refuted.
 
 (* a name only conditionally assigned in the region and not bound before is returned: `return x` raises *)
 Theorem C03_result_maybe_unbound_refuted :
-  exists p', extract as_is false [va] w_retunbound = Some p'
+  exists p', extract current false [va] w_retunbound = Some p'
              /\ run 5 [va] [0]%Z p' <> run 5 [va] [0]%Z (orig w_retunbound).
 Proof. exact result_maybe_unbound_refuted. Qed.
 Print Assumptions C03_result_maybe_unbound_refuted.
 
-(* with the one corresponding discipline repaired (restore the flag / balanced decrement / nested writes do not
+(* starting from the as-found discipline, with the one corresponding discipline repaired (restore the flag / balanced decrement / nested writes do not
    kill / reads are not dropped / all loop writes are live / read & (written | maybe_written)) the same six
    programs satisfy the outlining hypotheses, so by C03_extract_preserves they are extracted correctly *)
 Theorem C03_repaired_disciplines_partial :
